@@ -7,6 +7,7 @@ import (
 	"fmt"
 	"os"
 	"path/filepath"
+	"regexp"
 	"sort"
 	"strconv"
 	"strings"
@@ -426,14 +427,20 @@ func subMultiset(shown, all []string) string {
 
 // c05CheckTrimmed evaluates the output of a trimmed report against the untrimmed figures U
 // (Lean Spec) and, for non-visual formats, against the Lean model of the node selection.
-func c05CheckTrimmed(c *Ctx, cs *c05Case, level string, out []byte, U *gTable, rq gReq) bool {
+// peekEmpty: `pprof -peek` reported "no matches found" (printTree returns an error when it lists
+// nothing); acceptable iff nothing should be listed.
+func c05CheckTrimmed(c *Ctx, cs *c05Case, level string, out []byte, U *gTable, rq gReq, p0 *profile.Profile, canon string, peekEmpty bool) bool {
 	var pr *parsedReport
 	var err error
 	switch cs.Format {
 	case "text":
 		pr, err = parseText(string(out))
-	case "tree":
-		pr, err = parseTree(string(out))
+	case "tree", "peek":
+		if peekEmpty {
+			pr = &parsedReport{}
+		} else {
+			pr, err = parseTree(string(out))
+		}
 	case "dot":
 		pr, err = parseDot(string(out))
 	case "topproto":
@@ -521,9 +528,75 @@ func c05CheckTrimmed(c *Ctx, cs *c05Case, level string, out []byte, U *gTable, r
 		} else {
 			c.Res.Hit("trim:order-differs-from-model")
 		}
+		// (2b) reports that print callers and callees (-tree, -peek): the whole context of every shown
+		// entry is the Lean Spec under the shown set K — every caller/callee line is an edge between two
+		// shown entries with the weight of the adjacency after deleting the removed entries (so the
+		// bypass edges are there and no removed entry appears), minus the edges below the edge cutoff.
+		// When nothing was removed the graph is the untrimmed one (K = everything listed; edges to
+		// entries that are never listed because all their figures are zero stay).
+		if (cs.Format == "tree" || cs.Format == "peek") && !peekEmpty {
+			S := U
+			if len(f[3:]) < len(keys) {
+				keptList := []graph.NodeInfo{}
+				for _, t := range f[3:] {
+					i, _ := strconv.Atoi(t)
+					keptList = append(keptList, U.Info[keys[i]][0])
+				}
+				var perr string
+				S, perr = askTables(c, "graph.spec", &rq, keptList, true, p0, canon)
+				if perr != "" {
+					c.Disagree("C05/spec-unavailable", perr, "driver op graph.spec with kept set", cs)
+					return false
+				}
+				c.Res.Hit("context:rebuilt-under-shown-set")
+			}
+			edgeCut := int64(float64(sumFlat(U)) * frac(cs.EdgeNum, cs.EdgeDen))
+			if edgeCut < 0 {
+				edgeCut = -edgeCut
+			}
+			Sf := *S
+			Sf.Edges = map[string]gEdge{}
+			nres := 0
+			for k, e := range S.Edges {
+				aw := e.Wt.W
+				if aw < 0 {
+					aw = -aw
+				}
+				// TrimLowFrequencyEdges walks the In maps of the LISTED nodes: an edge into an entry
+				// that is not listed (all figures zero; only present when nothing was removed) stays
+				if _, dstListed := S.Flat[e.Dst]; dstListed && aw < edgeCut {
+					continue
+				}
+				Sf.Edges[k] = e
+				if e.Residual {
+					nres++
+				}
+			}
+			if nres > 0 {
+				c.Res.Hit("context:has-bypass-edge")
+			}
+			gotE := canonNodes(pr.Nodes, true, true, false)
+			wantE := canonNodes(expectedDisplay(cs.Format, &Sf), true, true, false)
+			if d := firstDiff(gotE, wantE); d != "" {
+				shownNames := map[string]bool{}
+				for _, n := range pr.Nodes {
+					shownNames[n.Name] = true
+				}
+				kind := "context"
+				for _, n := range pr.Nodes {
+					for _, e := range append(append([]dispEdge{}, n.In...), n.Out...) {
+						if !shownNames[e.Name] && len(f[3:]) < len(keys) {
+							kind = "context-names-removed-entry"
+						}
+					}
+				}
+				c.Violation(sig+kind, "callers/callees of the shown entries differ from the Spec under the shown set (edge cutoff "+strconv.FormatInt(edgeCut, 10)+"): "+d+desc, cs)
+				return false
+			}
+		}
 	}
 	// (3) legend: accounting for = Σ shown flat; total = untrimmed total
-	if cs.Format != "topproto" {
+	if cs.Format != "topproto" && !peekEmpty {
 		shown, total, ok := parseAccounting(pr.Labels)
 		if !ok {
 			c.Violation(sig+"legend-unparsable", strings.Join(pr.Labels, " / ")+desc, cs)
@@ -591,6 +664,9 @@ func c05ReportOptions(cs *c05Case, p *profile.Profile) *report.Options {
 	if q.Mean {
 		ro.SampleMeanDivisor = valueAt(0)
 	}
+	if cs.Format == "peek" {
+		ro.Symbol = regexp.MustCompile(".")
+	}
 	return ro
 }
 
@@ -615,6 +691,12 @@ func c05Report(c *Ctx, cs *c05Case) {
 		c.Violation("C05/report/"+cs.Format+"/panic", "report.Generate panics: "+pn, cs)
 		return
 	}
+	peekEmpty := false
+	if genErr != nil && cs.Format == "peek" && strings.Contains(genErr.Error(), "no matches found for regexp") {
+		// printTree reports an error when it lists nothing; acceptable iff nothing should be listed
+		peekEmpty, genErr = true, nil
+		c.Res.Hit("peek-empty-report")
+	}
 	if genErr != nil {
 		c.Violation("C05/report/"+cs.Format+"/error", genErr.Error(), cs)
 		return
@@ -626,7 +708,7 @@ func c05Report(c *Ctx, cs *c05Case) {
 		c.Disagree("C05/spec-unavailable", perr, "driver op graph.spec", cs)
 		return
 	}
-	if !c05CheckTrimmed(c, cs, "report", buf.Bytes(), U, rq) {
+	if !c05CheckTrimmed(c, cs, "report", buf.Bytes(), U, rq, p0, cs.Profile, peekEmpty) {
 		return
 	}
 	// dot, graph mode: take the survivor set chosen by the code as given and check the rebuilt graph
@@ -720,7 +802,11 @@ func fracArg(num, den int64) string {
 }
 
 func (cs *c05Case) cliArgs(file string) []string {
-	args := []string{"-" + cs.Format, "-symbolize=none",
+	fmtArg := "-" + cs.Format
+	if cs.Format == "peek" {
+		fmtArg = "-peek=."
+	}
+	args := []string{fmtArg, "-symbolize=none",
 		"-nodecount=" + strconv.Itoa(cs.NodeCount), "-nodefraction=" + fracArg(cs.FracNum, cs.FracDen), "-edgefraction=" + fracArg(cs.EdgeNum, cs.EdgeDen)}
 	if cs.Gran != "" {
 		args = append(args, "-"+cs.Gran)
@@ -742,6 +828,12 @@ func (cs *c05Case) cliArgs(file string) []string {
 }
 
 func c05CLICheck(c *Ctx, cs *c05Case, res cliResult) {
+	peekEmpty := false
+	if res.err != nil && cs.Format == "peek" && strings.Contains(string(res.errOut), "no matches found for regexp") {
+		peekEmpty = true
+		res.err = nil
+		c.Res.Hit("peek-empty-report")
+	}
 	if res.err != nil {
 		c.Violation("C05/cli/"+cs.Format+"/error", fmt.Sprintf("pprof %v fails: %v: %s", cs.cliArgs("FILE"), res.err, trunc(string(res.errOut))), cs)
 		return
@@ -769,7 +861,7 @@ func c05CLICheck(c *Ctx, cs *c05Case, res cliResult) {
 		c.Disagree("C05/spec-unavailable", perr, "driver op graph.spec", cs)
 		return
 	}
-	c05CheckTrimmed(c, cs, "cli", res.out, U, rq)
+	c05CheckTrimmed(c, cs, "cli", res.out, U, rq, p0, Canon(p0), peekEmpty)
 }
 
 func c05Run(c *Ctx, cs *c05Case) {
@@ -835,7 +927,7 @@ func c05PickKept(r *Rng, strategy string, g *graph.Graph, order []*graph.Node) [
 var c05KeptStrategies = []string{"random", "remove-leaves", "remove-roots", "remove-middles", "remove-one", "remove-all", "keep-one", "cutoff", "top-n"}
 
 func runC05(c *Ctx) {
-	c.Res.Rule = "profiles as for C04 (9 stack-shape strategies, small values so that fraction products are exact) × (a) graph.New rebuilt with a kept set chosen by 9 strategies (random, remove leaves / roots / chain middles / one / all, keep one, cum cutoff, top-N) — shown figures vs the untrimmed graph.New and vs the Lean Spec under K incl. residual weights and marks, model correspondence; (b) TrimTree on call trees with kept pointer sets — direct oracle (kept nodes only, figures unchanged, every edge comes from an ancestor and is residual iff it bypasses a node, no edge to a removed node, In/Out agree), vs Lean Spec on path keys, and correspondence with the Lean model of TrimTree (In and Out maps of every listed node, node order as in Go, unlisted all-zero nodes included); (c) report.Generate text/tree/topproto/dot with nodecount × nodefraction × edgefraction × sort grids — shown rows ⊆ untrimmed rows, selection = Lean Trim model, legend 'accounting for' = Σ shown flat, dot residual marks vs Spec under the survivor set, no dangling edges; (d) the same through the pprof CLI. non-trivial = the trimming removed at least one entry; distinct by canonical profile + options"
+	c.Res.Rule = "profiles as for C04 (9 stack-shape strategies, small values so that fraction products are exact) × (a) graph.New rebuilt with a kept set chosen by 9 strategies (random, remove leaves / roots / chain middles / one / all, keep one, cum cutoff, top-N) — shown figures vs the untrimmed graph.New and vs the Lean Spec under K incl. residual weights and marks, model correspondence; (b) TrimTree on call trees with kept pointer sets — direct oracle (kept nodes only, figures unchanged, every edge comes from an ancestor and is residual iff it bypasses a node, no edge to a removed node, In/Out agree), vs Lean Spec on path keys, and correspondence with the Lean model of TrimTree (In and Out maps of every listed node, node order as in Go, unlisted all-zero nodes included); (c) report.Generate text/tree/topproto/dot with nodecount × nodefraction × edgefraction × sort grids — shown rows ⊆ untrimmed rows, selection = Lean Trim model, legend 'accounting for' = Σ shown flat, dot residual marks vs Spec under the survivor set, no dangling edges; (c2) tree / text / peek reports with nodecount chosen relative to the measured counts N (entries of the untrimmed graph) and S (survivors of the nodefraction cut): nodecount ∈ {S−1, S, S+1, (S+N)/2, N−1, N, N+1}, fraction preferring 0<S<N; for tree/peek (all levels) the complete caller/callee context of every shown entry = Lean Spec under the shown set minus edges below the edge cutoff (no removed entry is named, bypass edges present); (d) the same through the pprof CLI (text, tree, dot, topproto; -peek switches trimming off in the driver, so peek under trimming is exercised in-process only). non-trivial = the trimming removed at least one entry; distinct by canonical profile + options"
 	if c.Replay != "" {
 		var cs c05Case
 		if err := c.LoadReplay(&cs); err != nil {
@@ -963,6 +1055,92 @@ func runC05(c *Ctx) {
 				cc.NoInlines = r.Chance(30)
 				cliCases = append(cliCases, &cc)
 				c.Res.Hit("cli-format:" + cc.Format)
+			}
+		}
+		// (c2) node counts chosen RELATIVE to what was measured on this profile: N = entries of the
+		// untrimmed graph, S = survivors of the nodefraction cut; nodecount ∈ {S−1, S, S+1, (S+N)/2,
+		// N−1, N, N+1} — the windows in which one trimming stage removes something and the other does
+		// not — for the reports that print callers/callees (tree, peek) and for text. The fraction is
+		// picked among those that leave 0 < S < N when there is one. (N and S are computed here with
+		// plain Go arithmetic only to CHOOSE parameters; the oracle does not use them.)
+		{
+			rq := gReq{Agg: &[6]bool{true, true, false, false, false, false}, VI: r.Intn(len(p.SampleType)), Mean: r.Chance(25)}
+			if r.Chance(40) {
+				rq.Agg = c04RandAgg(r)
+			}
+			cliAble := rq.Agg != nil && *rq.Agg == [6]bool{true, true, false, false, false, false}
+			if g, prob := buildGraph(canon, &rq, nil); prob == "" && len(g.Nodes) > 0 {
+				N := len(g.Nodes)
+				var tot int64
+				for _, n := range g.Nodes {
+					tot += n.Flat
+				}
+				type cand struct {
+					f [2]int64
+					S int
+				}
+				var good, all []cand
+				for _, f := range fracs {
+					cut := int64(float64(tot) * frac(f[0], f[1]))
+					if cut < 0 {
+						cut = -cut
+					}
+					S := 0
+					for _, n := range g.Nodes {
+						a := n.Cum
+						if a < 0 {
+							a = -a
+						}
+						if a >= cut {
+							S++
+						}
+					}
+					all = append(all, cand{f, S})
+					if S > 0 && S < N {
+						good = append(good, cand{f, S})
+					}
+				}
+				pick := all[r.Intn(len(all))]
+				if len(good) > 0 && r.Chance(85) {
+					pick = good[r.Intn(len(good))]
+				}
+				S := pick.S
+				rel := []int{S - 1, S, S + 1, (S + N) / 2, N - 1, N, N + 1}
+				for k, format := range []string{"tree", "text", "peek"} {
+					nc := rel[r.Intn(len(rel))]
+					if nc < 1 {
+						nc = 1
+					}
+					e := fracs[r.Intn(4)]
+					cs := &c05Case{Level: "report", Profile: canon, Format: format, Req: rq, NodeCount: nc,
+						FracNum: pick.f[0], FracDen: pick.f[1], EdgeNum: e[0], EdgeDen: e[1], CumSort: r.Bool()}
+					window := "other"
+					switch {
+					case S < N && S <= nc && nc < N:
+						window = "cut-removes,count-does-not(S<=nc<N)"
+					case S < N && nc < S:
+						window = "both-remove(nc<S<N)"
+					case S == N && nc < N:
+						window = "count-only(nc<S=N)"
+					case S < N && nc >= N:
+						window = "cut-only(nc>=N)"
+					}
+					c.Res.Hit("relgrid:" + window)
+					c.Res.Hit("relgrid-format:" + format)
+					c05Removed = false
+					c05Report(c, cs)
+					c.Res.Count(canon+"relgrid"+fmt.Sprint(*cs), c05Removed)
+					// through the CLI only -tree: for -peek the driver switches trimming off
+					// (applyCommandOverrides: trim = false), so peek under trimming exists in-process only
+					if cliAble && (i+k)%2 == 0 && c.Pprof != "" && format == "tree" {
+						cc := *cs
+						cc.Level = "cli"
+						cc.Req.Agg = nil
+						cc.Gran = "functions"
+						cliCases = append(cliCases, &cc)
+						c.Res.Hit("cli-relgrid-format:" + cc.Format)
+					}
+				}
 			}
 		}
 	}
